@@ -1,13 +1,138 @@
-"""C08 -- Reactor timed calls run once, on time, in time order: bounded stand-in (contracts/parts/C08_bounded.py)."""
-from contracts._parts import bounded, EXPLORATION_NOTE
+"""C08 -- Reactor timed calls run once, on time, in time order.
 
-CONTRACTS = []
+Deductive: ReactorBase._moveCallLaterSooner (the sift-up that reset() / a negative delay() rely on) restores the heap
+order of _pendingTimedCalls for a heap of any size: if the heap order holds everywhere except that the entry at one
+position became smaller, then after the call it holds everywhere, the length is unchanged and the moved key is in the
+heap.  The heap is an array of keys (a DelayedCall is represented by its scheduled time, which is all `<=` looks at).
+Bounded (contracts/parts/C08_bounded.py): whole histories on the real ReactorBase.
+"""
+import z3
+
+from pyvc.api import *
+from pyvc import core
+from contracts._parts import bounded
+from twisted.internet import base
+
+IDX = z3.Int("c08_i")
+
+
+def parent(i):
+    return (i - 1) / 2  # z3 integer division: floor for non-negative operands
+
+
+class HeapArr:
+    """_pendingTimedCalls as _moveCallLaterSooner uses it: index(x), h[i], h[i] = v on a list of keys of fixed length"""
+
+    def __init__(self, arr, n, key_pos):
+        self.arr, self.n, self.key_pos = arr, n, key_pos
+
+    def index(self, key):
+        if self.key_pos is None:
+            raise ValueError("not in list")
+        return self.key_pos
+
+    def _check(self, i):
+        t = core.num_term(i)
+        if not ctx().decide(z3.And(t >= 0, t < core.num_term(self.n))):
+            raise IndexError("list index out of range")
+        return t
+
+    def __getitem__(self, i):
+        return core.mk_num(z3.Select(self.arr, self._check(i)))
+
+    def __setitem__(self, i, v):
+        self.arr = z3.Store(self.arr, self._check(i), core.num_term(v))
+
+
+def order_except(arr, n, hole, hole_value):
+    """heap order between every entry other than `hole` and its parent, `hole` holding hole_value"""
+    a = z3.Store(arr, hole, hole_value)
+    return z3.ForAll([IDX], z3.Implies(z3.And(IDX >= 1, IDX < n, IDX != hole), z3.Select(a, parent(IDX)) <= z3.Select(a, IDX)))
+
+
+def grandparent_le_children(arr, n, hole):
+    """the parent of the hole is <= the hole's children (true of a heap one of whose keys was decreased)"""
+    return z3.ForAll([IDX], z3.Implies(z3.And(IDX >= 1, IDX < n, parent(IDX) == hole, hole >= 1),
+                                       z3.Select(arr, parent(hole)) <= z3.Select(arr, IDX)))
+
+
+def heap_order(arr, n):
+    return z3.ForAll([IDX], z3.Implies(z3.And(IDX >= 1, IDX < n), z3.Select(arr, parent(IDX)) <= z3.Select(arr, IDX)))
+
+
+class MoveCallLaterSooner(Contract):
+    prop = "C08"
+    module = "twisted.internet.base"
+    function = "ReactorBase._moveCallLaterSooner"
+    differential = False
+    inputs = dict(n=Int(lo=0, small=[0, 1, 3]), p=Int(lo=0, small=[0, 1, 2]), present=ForkBool(), key=Int(small=[0, 5]))
+    trusted = ["a DelayedCall is represented by the key `<=` compares (its scheduled time); list.index returns the "
+               "position of the call in the heap (identity), ValueError when it is not there"]
+    timeout_quick = 60
+
+    def requires(self, i):
+        arr = z3.Array("c08_heap", z3.IntSort(), z3.IntSort())
+        n, p = core.num_term(i.n), core.num_term(i.p)
+        if not i.present:
+            return True
+        return core.mk_bool(z3.And(p < n, z3.Select(arr, p) == core.num_term(i.key),
+                                   order_except(arr, n, p, z3.Select(arr, p)), grandparent_le_children(arr, n, p)))
+
+    def setup(self, i):
+        arr = z3.Array("c08_heap", z3.IntSort(), z3.IntSort())
+        heap = HeapArr(arr, i.n, i.p if i.present else None)
+        r = self.make(base.ReactorBase, _pendingTimedCalls=heap)
+        return dict(self=r, args=[i.key], ghost=dict(heap=heap, arr0=arr))
+
+    loops = {"ReactorBase._moveCallLaterSooner#0": LoopSpec(
+        inv=lambda v: core.mk_bool(z3.And(
+            core.num_term(v.pos) >= 0, core.num_term(v.pos) < core.num_term(v.heap.n),
+            order_except(v.heap.arr, core.num_term(v.heap.n), core.num_term(v.pos), core.num_term(v.elt)),
+            grandparent_le_children(v.heap.arr, core.num_term(v.heap.n), core.num_term(v.pos)),
+            # the hole's children are >= the key being moved up
+            z3.ForAll([IDX], z3.Implies(z3.And(IDX >= 1, IDX < core.num_term(v.heap.n), parent(IDX) == core.num_term(v.pos)),
+                                        core.num_term(v.elt) <= z3.Select(v.heap.arr, IDX))))),
+        # `heap` is an alias of self._pendingTimedCalls: the object stays, its contents are havocked
+        frozen=("heap",), modifies=("heap.arr",), types={"heap.arr": lambda nm: z3.Array(nm, z3.IntSort(), z3.IntSort())},
+        decreases=lambda v: v.pos)}
+
+    raises = ()
+
+    def _post(S):
+        h = S.ghost["heap"]
+        n = core.num_term(h.n)
+        if not S.i.present:
+            return veq_arr(h.arr, S.ghost["arr0"])
+        return core.mk_bool(z3.And(heap_order(h.arr, n), z3.Exists([IDX], z3.And(IDX >= 0, IDX < n, z3.Select(h.arr, IDX) == core.num_term(S.i.key)))))
+
+    ensures = dict(heap_order_restored=_post)
+    canaries = [("parent = (pos - 1) // 2", "parent = pos // 2", "!verify"),  # seeded change C08-1: `preserved` no longer discharges
+                ("if heap[parent] <= elt:", "if heap[parent] < elt:", None),  # harmless: equal keys may stay or move
+                ("heap[pos] = heap[parent]", "heap[parent] = heap[pos]", "preserved")]
+
+    def bounded_inputs(self, tier):
+        return iter(())  # the real heap of DelayedCalls is exercised by the bounded part
+
+
+def veq_arr(a, b):
+    return core.mk_bool(z3.ForAll([IDX], z3.Select(a, IDX) == z3.Select(b, IDX)))
+
+
+CONTRACTS = [MoveCallLaterSooner]
 BOUNDED = bounded("C08")
 _SCOPE = ('real ReactorBase (attribute clock, no I/O): every history of up to 4 operations over a 26-operation alphabet (callLater with nested scripts, cancel / reset / delay incl. negative, advance + runUntilCurrent, timeout()), every ordered pair of modifications of 4 queued calls, seeded random histories of 20-260 operations incl. >50 cancellations (heap compaction); oracle: an independent timer model checked at every observation point (runs exactly once iff not cancelled, never early, first iteration at or after its time, not in the scheduling iteration, no earlier pending call, getDelayedCalls = pending set, timeout() bound)')
-NOTES = dict(explanation=_SCOPE, not_covered=["deductive contracts on the anchored functions (not built)"])
+NOTES = dict(explanation="_moveCallLaterSooner proved to restore the heap order for a heap of any size; histories are bounded: " + _SCOPE,
+             not_covered=["runUntilCurrent / callLater / timeout / getDelayedCalls as deductive contracts (heapq calls and "
+                          "call-outs; bounded tier only)", "that the sift-up permutes the heap (only: length kept, moved key present)"])
 MANIFEST = dict(
-    category="exploration",
-    text="Bounded stand-in only, on the real code: " + _SCOPE + ".",
-    note=EXPLORATION_NOTE,
-    technique="bounded exhaustive evaluation of an executable contract on the real code (stand-in; not proved)",
+    category="proof",
+    text="ReactorBase._moveCallLaterSooner is proved for a heap of any size: given heap order everywhere except at the "
+         "position whose key decreased (and the decreased-key facts a valid heap gives), the loop (invariant: order holds "
+         "except at the hole, the hole's parent is <= the hole's children, the moved key is <= the hole's children; "
+         "variant: the position) ends with the heap order holding everywhere, the length unchanged and the key in the "
+         "heap; a call that is not in the heap changes nothing.  Whole histories (exactly once, on time, in time order, "
+         "getDelayedCalls, timeout) are exercised in the bounded tier only: " + _SCOPE + ".",
+    note="Trusted: pyvc, SMT solvers, the key abstraction of DelayedCall, list.index by identity.  Everything else: "
+         "bounded, never counted as proved.",
+    technique="contract-based deductive verification (quantified heap invariant over an array model of the list, SMT) + bounded exhaustive histories",
 )
